@@ -29,3 +29,10 @@ func verifRefStore(d *RepoDir) (ref.Store, bool) {
 	}
 	return VerifWrapRefStore(d.FullPath, refsql.NewStore(d.db)), true
 }
+
+// VerifSQLDriver, when set, names the database/sql driver NewRepoDir opens the
+// ref store with (simulation builds only; a wrapper around sqlite3 that can
+// fail individual statements).
+var VerifSQLDriver string
+
+func verifSQLDriver() (string, bool) { return VerifSQLDriver, VerifSQLDriver != "" }
